@@ -16,9 +16,9 @@ package main
 
 import (
 	"fmt"
-	"os"
 	"go/token"
 	"go/types"
+	"os"
 	"sort"
 	"strings"
 
@@ -180,14 +180,14 @@ func (s *summary) size() int {
 }
 
 type modref struct {
-	p        *Prog
-	sums     map[*ssa.Function]*summary // keyed by unit top (declared function / wrapper / instance)
-	units    []*ssa.Function
-	byName   map[string][]*ssa.Function // repo methods by bare name (for json/fmt callbacks)
-	cg       *callgraph.Graph
-	rounds   int
-	undec    map[string]token.Pos
-	unitInfo map[*ssa.Function]*unit
+	p          *Prog
+	sums       map[*ssa.Function]*summary // keyed by unit top (declared function / wrapper / instance)
+	units      []*ssa.Function
+	byName     map[string][]*ssa.Function // repo methods by bare name (for json/fmt callbacks)
+	cg         *callgraph.Graph
+	rounds     int
+	undec      map[string]token.Pos
+	unitInfo   map[*ssa.Function]*unit
 	reachCache map[*ssa.Function]*reachInfo
 }
 
@@ -274,18 +274,18 @@ func (p *Prog) modref() *modref {
 // ---------------------------------------------------------------------------------------------
 
 type unit struct {
-	m       *modref
-	top     *ssa.Function
-	fns     []*ssa.Function
-	inUnit  map[*ssa.Function]bool
-	vals    map[ssa.Value]aval
-	content map[loc]locset
-	objs    map[any]*obj
-	sum     *summary
-	changed bool
-	reach   map[*ssa.Function]*reachInfo
-	reach2  map[*ssa.Function]map[*ssa.UnOp]*defset
-	callW   map[ssa.Instruction]map[loc]bool
+	m        *modref
+	top      *ssa.Function
+	fns      []*ssa.Function
+	inUnit   map[*ssa.Function]bool
+	vals     map[ssa.Value]aval
+	content  map[loc]locset
+	objs     map[any]*obj
+	sum      *summary
+	changed  bool
+	reach    map[*ssa.Function]*reachInfo
+	reach2   map[*ssa.Function]map[*ssa.UnOp]*defset
+	callW    map[ssa.Instruction]map[loc]bool
 	callDefs map[ssa.Instruction][]callDef
 	// regions written, with the instruction that does it (for E6 and reports)
 	writeSites []writeSite
